@@ -364,6 +364,7 @@ def extract_fn(repo, blk, meta, mode):
             raise X.LostAnchor('%s::%s: substitution pattern `%s` not found' % (rel, kv['name'], pat))
     item = X.desugar_asref_map(item, log)
     item = X.desugar_get_or_insert_with(item, log)
+    item = X.desugar_mut_self(item, kv['name'], log)
     if blk.qmark:
         item = X.desugar_qmark(item, log)
     # locate pieces again in the rewritten item
